@@ -64,7 +64,8 @@ class MediaList(cssutils.util._NewListBase):
     def __iter__(self):
         for item in self._seq:
             if item.type == 'MediaQuery':
-                yield item
+                # the medium itself, as indexing gives it
+                yield item.value
 
     def _seqindex(self, index):
         """Position in the sequence (which may hold comments too) of the
@@ -187,12 +188,27 @@ class MediaList(cssutils.util._NewListBase):
     def __setitem__(self, index, newMedium):
         """Overwriting ListSeq.__setitem__
 
-        Any duplicate items are **not yet** removed.
+        An older item of the same media type is removed and "all" replaces
+        the whole list, as setting ``mediaText`` does it.
         """
-        # TODO: remove duplicates?
         newMedium = self.__prepareset(newMedium)
         if newMedium:
-            self._seq[self._seqindex(index)] = (newMedium, 'MediaQuery', None, None)
+            pos = self._seqindex(index)
+            newmt = normalize(newMedium.mediaType)
+            self._seq[pos] = (newMedium, 'MediaQuery', None, None)
+            new = self._seq[pos]
+            if newmt:
+                for i in range(len(self._seq) - 1, -1, -1):
+                    item = self._seq[i]
+                    if (
+                        item.type == 'MediaQuery'
+                        and item is not new
+                        and (
+                            newmt == 'all'
+                            or normalize(item.value.mediaType) == newmt
+                        )
+                    ):
+                        del self._seq[i]
             self._wellformed = True
 
     def appendMedium(self, newMedium):
@@ -217,7 +233,7 @@ class MediaList(cssutils.util._NewListBase):
         newMedium = self.__prepareset(newMedium)
 
         if newMedium:
-            mts = [normalize(item.value.mediaType) for item in self]
+            mts = [normalize(mq.mediaType) for mq in self]
             newmt = normalize(newMedium.mediaType)
 
             self._seq._readonly = False
@@ -282,7 +298,7 @@ class MediaList(cssutils.util._NewListBase):
         list, returns ``None``.
         """
         try:
-            return list(self)[index].value.mediaType
+            return list(self)[index].mediaType
         except IndexError:
             return None
 
